@@ -55,6 +55,15 @@ theorem leafFilter_eq (pm : List Path) :
 theorem leafPaths_eq_spec (pm : List Path) : leafPaths pm = sortPaths (pm.filter (isLeafB pm)) := by
   unfold leafPaths; rw [leafFilter_eq]
 
+/-- The oracle's formulation, used as the *compiled* implementation of `leafPaths`: it tests each
+    path against the present paths directly instead of materialising the set of all dotted
+    prefixes (quadratic in the nesting depth). `@[csimp]` makes the compiler use it on the strength
+    of the equality proof; the theorems keep talking about `leafPaths`. -/
+def leafPathsFast (pm : List Path) : List Path := sortPaths (pm.filter (isLeafB pm))
+
+@[csimp] theorem leafPaths_eq_fast : @leafPaths = @leafPathsFast := by
+  funext pm; exact leafPaths_eq_spec pm
+
 theorem perm_leafFilter {pm₁ pm₂ : List Path} (h : pm₁.Perm pm₂) :
     (pm₁.filter (isLeafB pm₁)).Perm (pm₂.filter (isLeafB pm₂)) := by
   have hf : isLeafB pm₁ = isLeafB pm₂ := by
